@@ -113,6 +113,18 @@ Proof.
 Qed.
 
 (* ---------- the loop ---------- *)
+Lemma tiling_last a b xs : Tiling a b xs -> xs <> [] -> exists t pre, rev xs = t :: pre /\ tend t = b.
+Proof.
+  induction 1 as [a|a b t ts H1 H2 H3 IH]; intros Hne; [contradiction|].
+  destruct ts as [|t2 ts2].
+  - inversion H3; subst. exists t, []. split; reflexivity.
+  - destruct (IH ltac:(discriminate)) as (l & pre & E & Hl). cbn [rev] in *. rewrite E. cbn [app].
+    exists l, (pre ++ [t]). split; [reflexivity|exact Hl].
+Qed.
+
+Lemma cu_top_idem cu le : cu_top (cu_top cu le) le = cu_top cu le.
+Proof. unfold cu_top. destruct le; lia. Qed.
+
 Section Loop.
   Variable u : uni.
   Variable ilt : bool.
@@ -123,111 +135,135 @@ Section Loop.
   Lemma boundary_char_le b : is_boundary bs b = true -> char_index bs b <= length src.
   Proof. intros Hb. destruct (utf8_index src b Hv Hb) as (k & Hk & _ & Hik & _). fold bs in Hik. lia. Qed.
 
-  Theorem mk_loop_inv : forall evs tb tc hi stack,
-    is_boundary bs tb = true -> tc = char_index bs tb ->
-    md_contractb bs tb hi evs = true ->
-    exists out, mk_loop u ilt src bs evs tb tc stack = Ok out /\
-      InText (length src) out /\ OrderedFrom (char_index bs hi) out /\ ZeroWidthOnlyBreaks out.
+  (* what one event that the guard does not skip pushes, under the local clauses of the contract *)
+  Definition StepSpec (stack : list md_tag) (tc' : nat) (e : mevent) (lastend : option nat) (out : list token) : Prop :=
+    last_end out lastend = (match ext ilt bs stack tc' e with Some x => Some x | None => lastend end) /\
+    ((out = [] /\ ext ilt bs stack tc' e = None) \/
+     (exists k, out = [mktok (span_new_with_len tc' 0) k] /\ ext ilt bs stack tc' e = Some tc' /\
+                match k with KNewline _ | KParagraphBreak => True | _ => False end) \/
+     (exists n, Tiling tc' (tc' + n) out /\ ext ilt bs stack tc' e = Some (tc' + n) /\ 1 <= n /\
+                tc' + n <= length src /\ is_leaf (me_ev e) = true)).
+
+  Lemma step_spec stack tb' tc' e lastend :
+    is_boundary bs tb' = true -> tc' = char_index bs tb' -> is_boundary bs (me_rs e) = true ->
+    (match me_ev e with
+     | MText _ => (me_rs e <=? me_re e) && is_boundary bs (me_re e)
+     | _ => true
+     end) = true ->
+    (match claim ilt bs stack e with
+     | Some n => (tb' <=? me_re e) && is_boundary bs (me_re e) && (n <=? count_chars (slice bs tb' (me_re e))) && (1 <=? n)
+     | None => true
+     end) = true ->
+    exists out, mk_step u ilt src bs stack tc' e = Ok out /\ StepSpec stack tc' e lastend out.
   Proof.
-    induction evs as [|e rest IH]; intros tb tc hi stack Hb Hc HK.
+    intros Hb Hc Hrs HT HC.
+    (* a covering single token / tiling of n claimed characters *)
+    assert (Fit : forall n, claim ilt bs stack e = Some n -> 1 <= n /\ tc' + n <= length src /\
+                            tc' + n <= char_index bs (me_re e)).
+    { intros n Hn. rewrite Hn in HC. repeat (apply andb_true_iff in HC as [HC ?]).
+      apply Nat.leb_le in HC. repeat match goal with H : (_ <=? _) = true |- _ => apply Nat.leb_le in H end.
+      match goal with H : is_boundary bs (me_re e) = true |- _ => pose proof (boundary_char_le _ H) as Hre end.
+      pose proof (char_index_split bs tb' (me_re e) HC) as Hs. lia. }
+    unfold StepSpec, mk_step, ext, claim, last_end in *. destruct (me_ev e) as [t| | | | |n|n|n|] eqn:Ev; cbn [is_leaf].
+    - destruct t; (eexists; split; [reflexivity|]); cbn [rev app];
+        try (split; [reflexivity|left; split; reflexivity]).
+      split; [unfold tend, span_new_with_len; cbn; f_equal; lia|]. right; left. eexists. repeat split.
+    - eexists; split; [reflexivity|]. cbn [rev app].
+      split; [unfold tend, span_new_with_len; cbn; f_equal; lia|]. right; left. eexists. repeat split.
+    - eexists; split; [reflexivity|]. split; [reflexivity|left; split; reflexivity].
+    - destruct (Fit 1 eq_refl) as (F1 & F2 & _). eexists; split; [reflexivity|]. cbn [rev app].
+      split; [reflexivity|]. right; right. exists 1. repeat split; try lia. unfold span_new_with_len. apply tiling_single. lia.
+    - destruct (Fit 1 eq_refl) as (F1 & F2 & _). eexists; split; [reflexivity|]. cbn [rev app].
+      split; [reflexivity|]. right; right. exists 1. repeat split; try lia. unfold span_new_with_len. apply tiling_single. lia.
+    - destruct (Nat.eqb_spec n 0) as [Hz|Hnz].
+      + eexists; split; [reflexivity|]. split; [reflexivity|left; split; reflexivity].
+      + destruct (Fit n eq_refl) as (F1 & F2 & _). eexists; split; [reflexivity|]. cbn [rev app].
+        split; [reflexivity|]. right; right. exists n. repeat split; try lia.
+        unfold unl_tok, span_new_with_len. apply tiling_single. lia.
+    - (* Text *)
+      apply andb_true_iff in HT as [HT1 HT2]. apply Nat.leb_le in HT1.
+      assert (Hcl : md_chunk_len bs (me_rs e) (me_re e) n
+                    = Ok (Nat.min n (count_chars (slice bs (me_rs e) (me_re e))))).
+      { unfold md_chunk_len. rewrite str_slice_ok, Hrs, HT2.
+        destruct (Nat.leb_spec (me_rs e) (me_re e)); [|lia]. reflexivity. }
+      rewrite Hcl. cbn [bind].
+      set (cl := Nat.min n (count_chars (slice bs (me_rs e) (me_re e)))) in *.
+      destruct (Nat.eqb_spec cl 0) as [Hz|Hnz].
+      + eexists; split; [reflexivity|]. split; [reflexivity|left; split; reflexivity].
+      + destruct (text_pushes ilt stack) eqn:Hp.
+        * destruct (Fit cl eq_refl) as (F1 & F2 & F3).
+          pose proof (boundary_char_le (me_re e) HT2) as Hre.
+          destruct (mk_text_piece u ilt src stack tc' cl (char_index bs (me_re e)) F1 F3 Hre) as (o & Ho & Hpc).
+          rewrite Ho. eexists; split; [reflexivity|].
+          (* a pushing stack never gives the empty piece *)
+          assert (Ht : Tiling tc' (tc' + cl) o).
+          { unfold mk_text in Ho. unfold text_pushes in Hp.
+            assert (Hlexed : forall o', (do chunk <- slice_chk src tc' (tc' + cl); do ts <- plain_parse u chunk; Ok (map (pushtok tc') ts)) = Ok o' ->
+                                        Tiling tc' (tc' + cl) o').
+            { unfold slice_chk. destruct (Nat.ltb_spec (tc' + cl) tc'); [lia|].
+              destruct (Nat.ltb_spec (length src) (tc' + cl)); [lia|]. cbn [orb bind].
+              set (chunk := firstn (tc' + cl - tc') (skipn tc' src)).
+              assert (Hlc : length chunk = cl) by (unfold chunk; rewrite firstn_length, skipn_length; lia).
+              destruct (plain_tiling u chunk) as [ts [Hpp Htt]]. rewrite Hpp. cbn [bind]. intros o' E; injection E as <-.
+              rewrite Hlc in Htt. pose proof (tiling_push tc' 0 cl ts Htt) as H'.
+              rewrite Nat.add_0_l, (Nat.add_comm cl tc') in H'. exact H'. }
+            assert (Hunl : Tiling tc' (tc' + cl) [unl_tok tc' cl]).
+            { unfold unl_tok, span_new_with_len. apply tiling_single. lia. }
+            destruct stack as [|tag rest]; [apply Hlexed; exact Ho|].
+            destruct tag; cbn [tag_is_prose] in Ho, Hp; try discriminate Hp;
+              try (apply Hlexed; exact Ho); try (injection Ho as <-; exact Hunl).
+            destruct ilt; cbn [negb] in Ho; [injection Ho as <-; exact Hunl|apply Hlexed; exact Ho]. }
+          assert (Hne : o <> []).
+          { intros ->. inversion Ht. lia. }
+          destruct (tiling_last _ _ _ Ht Hne) as (l & pre & El & Hl). rewrite El, Hl.
+          split; [reflexivity|]. right; right. exists cl. repeat split; try assumption.
+        * (* nothing pushed *)
+          assert (Ho : mk_text u ilt src stack tc' cl = Ok []).
+          { unfold mk_text, text_pushes in *. destruct stack as [|tag rest]; [discriminate|].
+            destruct tag; cbn [tag_is_prose] in *; try discriminate Hp; try reflexivity. }
+          rewrite Ho. eexists; split; [reflexivity|]. split; [reflexivity|left; split; reflexivity].
+    - destruct (Fit n eq_refl) as (F1 & F2 & _). eexists; split; [reflexivity|]. cbn [rev app].
+      split; [reflexivity|]. right; right. exists n. repeat split; try lia.
+      unfold unl_tok, span_new_with_len. apply tiling_single. lia.
+    - eexists; split; [reflexivity|]. split; [reflexivity|left; split; reflexivity].
+  Qed.
+
+  Theorem mk_loop_inv : forall evs tb tc cu lastend stack,
+    is_boundary bs tb = true -> tc = char_index bs tb ->
+    md_contractb ilt bs tb cu lastend stack evs = true ->
+    exists out, mk_loop u ilt src bs evs tb tc cu lastend stack = Ok out /\
+      InText (length src) out /\ OrderedFrom (cu_top cu lastend) out /\ ZeroWidthOnlyBreaks out.
+  Proof.
+    induction evs as [|e rest IH]; intros tb tc cu lastend stack Hb Hc HK.
     - cbn [mk_loop]. eexists; split; [reflexivity|]. split; [constructor|]. split; constructor.
-    - cbn [md_contractb] in HK.
-      apply andb_true_iff in HK as [HK HK4]. apply andb_true_iff in HK as [HK HK3].
-      apply andb_true_iff in HK as [HK1 HK2]. apply Nat.leb_le in HK1.
+    - cbn [md_contractb] in HK. cbv zeta in HK. apply andb_true_iff in HK as [HK1 HK].
       cbn [mk_loop].
-      destruct (md_advance_ok bs tb tc (me_rs e) Hb HK2) as [[tb' tc'] E]. rewrite E. cbn [bind].
+      destruct (md_advance_ok bs tb tc (me_rs e) Hb HK1) as [[tb' tc'] E]. rewrite E. cbn [bind]. cbv zeta.
       destruct (md_advance_spec _ _ _ _ _ _ Hc Hb E) as (H1 & H2 & H3).
-      pose proof (boundary_char_le tb' H3) as Htc. rewrite <- H2 in Htc.
-      (* non-leaf events: nothing or one zero-width break token at tc' *)
-      assert (NonLeaf : forall out st,
-                 leaf_need (me_ev e) = None -> mk_step u ilt src bs stack tc' e = Ok (out, st) ->
-                 (out = [] \/ exists k, out = [mktok (span_new_with_len tc' 0) k] /\
-                                        match k with KNewline _ | KParagraphBreak => True | _ => False end) ->
-                 exists o, (do '(out, stack) <- mk_step u ilt src bs stack tc' e;
-                            do r <- mk_loop u ilt src bs rest tb' tc' stack; Ok (out ++ r)) = Ok o /\
-                   InText (length src) o /\ OrderedFrom (char_index bs hi) o /\ ZeroWidthOnlyBreaks o).
-      { intros out st HL Hs Hout. rewrite Hs. cbn [bind]. rewrite HL in HK4. rewrite <- H1 in HK4.
-        destruct (IH tb' tc' hi st H3 H2 HK4) as (r & Hr & R1 & R2 & R3). rewrite Hr. cbn [bind].
-        eexists; split; [reflexivity|]. destruct Hout as [->|(k & -> & Hk)]; cbn [app]; [auto|].
-        split; [|split].
-        - constructor; [|exact R1]. unfold span_new_with_len, tstart, tend; cbn. lia.
-        - apply OF_zero; [|exact R2]. unfold covers_chars, span_new_with_len, tstart, tend; cbn. lia.
-        - constructor; [|exact R3]. intros _. cbn [tkind_of]. exact Hk. }
-      (* leaf events: a piece inside [char_index rs, char_index re] *)
-      assert (Leaf : forall n ne out st,
-                 leaf_need (me_ev e) = Some (n, ne) -> mk_step u ilt src bs stack tc' e = Ok (out, st) ->
-                 (tb <= me_rs e -> Piece tc' (char_index bs (me_re e)) out) ->
-                 exists o, (do '(out, stack) <- mk_step u ilt src bs stack tc' e;
-                            do r <- mk_loop u ilt src bs rest tb' tc' stack; Ok (out ++ r)) = Ok o /\
-                   InText (length src) o /\ OrderedFrom (char_index bs hi) o /\ ZeroWidthOnlyBreaks o).
-      { intros n ne out st HL Hs Hout. rewrite Hs. cbn [bind]. rewrite HL in HK4.
-        apply andb_true_iff in HK4 as [HK4 HK9]. apply andb_true_iff in HK4 as [HK4 HK8].
-        apply andb_true_iff in HK4 as [HK4 HK7]. apply andb_true_iff in HK4 as [HK5 HK6].
-        apply Nat.leb_le in HK5, HK6. rewrite <- H1 in HK9.
-        destruct (IH tb' tc' (me_re e) st H3 H2 HK9) as (r & Hr & R1 & R2 & R3). rewrite Hr. cbn [bind].
-        eexists; split; [reflexivity|].
-        assert (Hlo : char_index bs hi <= tc').
-        { rewrite H2, H1. apply char_index_mono. lia. }
-        pose proof (boundary_char_le (me_re e) HK3) as Hre.
-        destruct (Hout HK5) as [->|(b & Ht & Hb')]; cbn [app].
-        - split; [exact R1|]. split; [|exact R3]. eapply ordered_from_weaken; [|exact R2].
-          etransitivity; [exact Hlo|]. rewrite H2, H1. apply char_index_mono. lia.
-        - split; [|split].
-          + apply Forall_app. split; [|exact R1]. eapply tiling_intext; [exact Ht|lia].
-          + eapply tiling_then_ordered; [exact Ht|exact Hlo|exact Hb'|exact R2].
-          + apply Forall_app. split; [|exact R3]. eapply tiling_no_zero_width. exact Ht. }
-      (* the clauses K2/K3 of a leaf, as far as a piece needs them *)
-      assert (Hsplit : tb <= me_rs e -> tc' = char_index bs (me_rs e) /\
-                char_index bs (me_re e) = tc' + count_chars (slice bs (me_rs e) (me_re e))).
-      { intros Hle. assert (tb' = me_rs e) as Hrs by lia. split; [rewrite H2, Hrs; reflexivity|].
-        rewrite H2, Hrs. apply char_index_split. exact HK1. }
-      unfold mk_step in *. destruct (me_ev e) as [t| | | | |n|n|n|] eqn:Ev.
-      + (* Start *)
-        destruct t; (eapply NonLeaf; [reflexivity|reflexivity|]); try (left; reflexivity).
-        right. eexists; split; [reflexivity|exact I].
-      + eapply NonLeaf; [reflexivity|reflexivity|]. right. eexists; split; [reflexivity|exact I].
-      + eapply NonLeaf; [reflexivity|reflexivity|]. left; reflexivity.
-      + (* SoftBreak *)
-        eapply Leaf; [reflexivity|reflexivity|]. intros Hle. destruct (Hsplit Hle) as [_ Hs].
-        cbn [leaf_need] in HK4. repeat (apply andb_true_iff in HK4 as [HK4 ?]).
-        match goal with H : (1 <=? count_chars _) = true |- _ => apply Nat.leb_le in H end.
-        apply piece_single; lia.
-      + eapply Leaf; [reflexivity|reflexivity|]. intros Hle. destruct (Hsplit Hle) as [_ Hs].
-        cbn [leaf_need] in HK4. repeat (apply andb_true_iff in HK4 as [HK4 ?]).
-        match goal with H : (1 <=? count_chars _) = true |- _ => apply Nat.leb_le in H end.
-        apply piece_single; lia.
-      + (* Code / Math *)
-        eapply Leaf; [reflexivity|reflexivity|]. intros Hle. destruct (Hsplit Hle) as [_ Hs].
-        cbn [leaf_need] in HK4. repeat (apply andb_true_iff in HK4 as [HK4 ?]).
-        match goal with H : (n <=? count_chars _) = true |- _ => apply Nat.leb_le in H end.
-        match goal with H : (1 <=? n) = true |- _ => apply Nat.leb_le in H end.
-        apply piece_single; lia.
-      + (* Text *)
-        assert (Hcl : md_chunk_len bs (me_rs e) (me_re e) n
-                      = Ok (Nat.min n (count_chars (slice bs (me_rs e) (me_re e))))).
-        { unfold md_chunk_len. rewrite str_slice_ok, HK2, HK3.
-          destruct (Nat.leb_spec (me_rs e) (me_re e)); [|lia]. reflexivity. }
-        set (cl := Nat.min n (count_chars (slice bs (me_rs e) (me_re e)))) in *.
-        destruct (Nat.eqb_spec cl 0) as [Hz|Hnz].
-        * eapply Leaf; [reflexivity| |intros _; left; reflexivity].
-          rewrite Hcl. cbn [bind]. destruct (Nat.eqb_spec cl 0); [reflexivity|contradiction].
-        * cbn [leaf_need] in HK4.
-          destruct (Nat.le_gt_cases tb (me_rs e)) as [Hle|Hgt].
-          2:{ exfalso. repeat (apply andb_true_iff in HK4 as [HK4 ?]).
-              match goal with H : (tb <=? me_rs e) = true |- _ => apply Nat.leb_le in H; lia end. }
-          destruct (Hsplit Hle) as [_ Hs].
-          pose proof (boundary_char_le (me_re e) HK3) as Hre.
-          destruct (mk_text_piece u ilt src stack tc' cl (char_index bs (me_re e)) ltac:(lia) ltac:(unfold cl; lia) Hre)
-            as (o & Ho & Hp).
-          eapply Leaf; [reflexivity| |intros _; exact Hp].
-          rewrite Hcl. cbn [bind]. destruct (Nat.eqb_spec cl 0); [contradiction|]. rewrite Ho. reflexivity.
-      + (* Html *)
-        eapply Leaf; [reflexivity|reflexivity|]. intros Hle. destruct (Hsplit Hle) as [_ Hs].
-        cbn [leaf_need] in HK4. repeat (apply andb_true_iff in HK4 as [HK4 ?]).
-        match goal with H : (n <=? count_chars _) = true |- _ => apply Nat.leb_le in H end.
-        match goal with H : (1 <=? n) = true |- _ => apply Nat.leb_le in H end.
-        apply piece_single; lia.
-      + eapply NonLeaf; [reflexivity|reflexivity|]. left; reflexivity.
+      rewrite <- H1, <- H2 in HK.
+      set (cu' := cu_top cu lastend) in *.
+      destruct (is_leaf (me_ev e) && (tc' <? cu')) eqn:Hskip.
+      + destruct (IH tb' tc' cu' lastend stack H3 H2 HK) as (r & Hr & R1 & R2 & R3).
+        exists r. split; [exact Hr|]. split; [exact R1|]. split; [|exact R3].
+        unfold cu' in R2. rewrite cu_top_idem in R2. exact R2.
+      + apply andb_true_iff in HK as [HK HKrest]. apply andb_true_iff in HK as [HKT HKC].
+        destruct (step_spec stack tb' tc' e lastend H3 H2 HK1 HKT HKC) as (out & Ho & Hle & Hcases).
+        rewrite Ho. cbn [bind]. rewrite Hle.
+        destruct (IH tb' tc' cu' _ _ H3 H2 HKrest) as (r & Hr & R1 & R2 & R3).
+        rewrite Hr. cbn [bind]. eexists; split; [reflexivity|].
+        pose proof (boundary_char_le tb' H3) as Htc. rewrite <- H2 in Htc.
+        destruct Hcases as [[-> Hex]|[(k & -> & Hex & Hk)|(n & Ht & Hext & Hn & Hfit & Hlf)]]; cbn [app].
+        * rewrite Hex in R2. fold cu' in R2. unfold cu' in R2. rewrite cu_top_idem in R2. auto.
+        * split; [|split].
+          -- constructor; [|exact R1]. unfold span_new_with_len, tstart, tend; cbn. lia.
+          -- apply OF_zero; [unfold covers_chars, span_new_with_len, tstart, tend; cbn; lia|].
+             eapply ordered_from_weaken; [|exact R2]. rewrite Hex. unfold cu_top. lia.
+          -- constructor; [|exact R3]. intros _. cbn [tkind_of]. exact Hk.
+        * rewrite Hlf in Hskip. cbn [andb] in Hskip. apply Nat.ltb_ge in Hskip.
+          rewrite Hext in R2. split; [|split].
+          -- apply Forall_app. split; [|exact R1]. eapply tiling_intext; [exact Ht|lia].
+          -- eapply tiling_then_ordered; [exact Ht|exact Hskip| |exact R2]. unfold cu_top. lia.
+          -- apply Forall_app. split; [|exact R3]. eapply tiling_no_zero_width. exact Ht.
   Qed.
 End Loop.
 
@@ -240,14 +276,14 @@ Proof.
 Qed.
 
 Theorem markdown_glue u ilt src evs :
-  Forall valid_char src -> md_contract src evs ->
+  Forall valid_char src -> md_contract ilt src evs ->
   exists raw ts,
     markdown_raw u ilt src evs = Ok raw /\ markdown_parse u ilt src evs = Ok ts /\ Sub ts raw /\
     TokInv (length src) raw /\ TokInv (length src) ts /\
     Forall (fun t => tend t <= length src) ts.
 Proof.
   intros Hv HK. unfold md_contract in HK.
-  destruct (mk_loop_inv u ilt src Hv evs 0 0 0 [] eq_refl eq_refl HK) as (raw & Hr & R1 & R2 & R3).
+  destruct (mk_loop_inv u ilt src Hv evs 0 0 0 None [] eq_refl eq_refl HK) as (raw & Hr & R1 & R2 & R3).
   unfold markdown_parse, markdown_raw. rewrite Hr. cbn [bind]. eexists _, _. split; [reflexivity|]. split; [reflexivity|].
   assert (HS : Sub (remove_wikilink_brackets (remove_hidden_wikilink_tokens (mk_pop_last src raw))) raw).
   { eapply sub_trans; [apply mk_pop_last_sub|]. eapply sub_trans; [apply remove_hidden_sub|]. apply remove_brackets_sub. }
@@ -257,7 +293,7 @@ Proof.
   eapply sub_forall; [exact HS|]. eapply Forall_impl; [|exact R1]. cbn. intros t [_ B]. exact B.
 Qed.
 
-(* ---------- non-vacuity and the two refutations found by monitoring the contract ---------- *)
+(* ---------- non-vacuity; the repaired findings FC02a / FC02b as positive facts; the residual FC02c ---------- *)
 Definition mev_ (e : mev) (rs re : nat) : mevent := mkmev e rs re.
 
 (* "ü [[a|b]] `c`\n" with the event stream pulldown-cmark 0.13 really delivers (recorded by the harness, replayed by
@@ -267,7 +303,7 @@ Definition md_ex_evs : list mevent :=
   [mev_ (MStart TParagraph) 0 15; mev_ (MText 2) 0 3; mev_ (MStart TLink) 3 9; mev_ (MText 1) 7 8; mev_ MEndOther 3 9;
    mev_ (MText 1) 10 11; mev_ (MCodeLike 1) 11 14; mev_ MEndBreaking 0 15].
 Lemma markdown_glue_example :
-  Forall valid_char md_ex_src /\ md_contract md_ex_src md_ex_evs /\
+  Forall valid_char md_ex_src /\ md_contract false md_ex_src md_ex_evs /\
   markdown_parse uni_u_umlaut false md_ex_src md_ex_evs
   = Ok [mktok (mkspan 0 1) KWord; mktok (mkspan 1 2) (KSpace 1); mktok (mkspan 6 7) KWord;
         mktok (mkspan 9 10) (KSpace 1); mktok (mkspan 10 11) KUnlintable; mktok (mkspan 10 10) KParagraphBreak].
@@ -278,43 +314,86 @@ Proof.
   rewrite forallb_forall in H. apply H. exact Hc.
 Qed.
 
-(* FC02b: "[[a|]] b" — a wikilink with an empty display text.  pulldown-cmark 0.13 reports the text after the link
-   TWICE (once inside the link, once after it; both with the source range 6..8): the stream breaks clause K2 of the
-   contract, and Markdown::parse, which trusts the stream, emits the tokens of " b" twice — covering tokens that are
-   neither ordered nor disjoint *)
+(* FC02b (repaired by 8b26ba4): "[[a|]] b" — pulldown-cmark 0.13 reports the text after a wikilink with an empty
+   display text TWICE (both times with the source range 6..8).  The stream now MEETS the contract (order of the leaf
+   events is no longer asked), the covered_until guard skips the repeat, the tokens are ordered and disjoint *)
 Definition md_dup_src : text := [91; 91; 97; 124; 93; 93; 32; 98]%N.
 Definition md_dup_evs : list mevent :=
   [mev_ (MStart TParagraph) 0 8; mev_ (MStart TLink) 0 5; mev_ (MText 1) 4 5; mev_ (MText 1) 5 6; mev_ (MText 2) 6 8;
    mev_ MEndOther 0 5; mev_ (MText 2) 6 8; mev_ MEndBreaking 0 8].
 Definition md_dup_out : list token :=
   [mktok (mkspan 4 5) (KPunct PCloseSquare); mktok (mkspan 5 6) (KPunct PCloseSquare);
-   mktok (mkspan 6 7) (KSpace 1); mktok (mkspan 7 8) KWord; mktok (mkspan 6 7) (KSpace 1); mktok (mkspan 7 8) KWord].
-Theorem markdown_duplicate_text_witness :
-  md_contractb (encode md_dup_src) 0 0 md_dup_evs = false /\
+   mktok (mkspan 6 7) (KSpace 1); mktok (mkspan 7 8) KWord].
+Theorem markdown_repeated_text_skipped :
+  md_contract false md_dup_src md_dup_evs /\
   markdown_parse ascii_uni false md_dup_src md_dup_evs = Ok md_dup_out /\
-  ~ OrderedDisjoint md_dup_out.
+  Tiling 4 8 md_dup_out.
 Proof.
   split; [vm_compute; reflexivity|]. split; [vm_compute; reflexivity|].
-  unfold OrderedDisjoint, md_dup_out. intros H.
-  repeat match goal with
-         | H : OrderedFrom _ (_ :: _) |- _ => inversion H; clear H; subst
-         end;
-    unfold covers_chars, tstart, tend in *; cbn in *; lia.
+  unfold md_dup_out. repeat (constructor; cbn; try lia).
 Qed.
 
-(* FC02a: "$$$$" — display math with an empty body: DisplayMath("") becomes a ZERO-WIDTH Unlintable token (clause K3:
-   a Code / Math / Html payload is not empty) *)
+(* FC02a (repaired by a37d1cc): "$$$$" — DisplayMath with an empty payload makes no token at all *)
 Definition md_math_src : text := [36; 36; 36; 36]%N.
 Definition md_math_evs : list mevent :=
   [mev_ (MStart TParagraph) 0 4; mev_ (MCodeLike 0) 0 4; mev_ MEndBreaking 0 4].
-Theorem markdown_empty_math_witness :
-  md_contractb (encode md_math_src) 0 0 md_math_evs = false /\
-  markdown_parse ascii_uni false md_math_src md_math_evs = Ok [mktok (mkspan 0 0) KUnlintable] /\
-  ~ ZeroWidthOnlyBreaks [mktok (mkspan 0 0) KUnlintable].
+Theorem markdown_empty_math_no_token :
+  md_contract false md_math_src md_math_evs /\
+  markdown_parse ascii_uni false md_math_src md_math_evs = Ok [].
+Proof. split; vm_compute; reflexivity. Qed.
+
+(* HISTORY — the loop before a37d1cc / 8b26ba4 (no skip of an empty Code / Math payload, no covered_until guard) *)
+Definition mk_step_old (u : uni) (ilt : bool) (src : text) (bs : list N) (stack : list md_tag) (tc : nat) (e : mevent)
+  : res (list token) :=
+  match me_ev e with
+  | MCodeLike n => Ok [unl_tok tc n]
+  | _ => mk_step u ilt src bs stack tc e
+  end.
+Fixpoint mk_loop_old (u : uni) (ilt : bool) (src : text) (bs : list N) (evs : list mevent) (tb tc : nat)
+         (stack : list md_tag) : res (list token) :=
+  match evs with
+  | [] => Ok []
+  | e :: rest =>
+      do '(tb, tc) <- md_advance bs tb tc (me_rs e);
+      do out <- mk_step_old u ilt src bs stack tc e;
+      do r <- mk_loop_old u ilt src bs rest tb tc (mk_stack stack (me_ev e));
+      Ok (out ++ r)
+  end.
+Definition markdown_parse_old (u : uni) (ilt : bool) (src : text) (evs : list mevent) : res (list token) :=
+  do toks <- mk_loop_old u ilt src (encode src) evs 0 0 [];
+  Ok (remove_wikilink_brackets (remove_hidden_wikilink_tokens (mk_pop_last src toks))).
+
+Lemma markdown_old_witnesses :
+  (markdown_parse_old ascii_uni false md_dup_src md_dup_evs
+   = Ok (md_dup_out ++ [mktok (mkspan 6 7) (KSpace 1); mktok (mkspan 7 8) KWord]) /\
+   ~ OrderedDisjoint (md_dup_out ++ [mktok (mkspan 6 7) (KSpace 1); mktok (mkspan 7 8) KWord])) /\
+  (markdown_parse_old ascii_uni false md_math_src md_math_evs = Ok [mktok (mkspan 0 0) KUnlintable] /\
+   ~ ZeroWidthOnlyBreaks [mktok (mkspan 0 0) KUnlintable]).
 Proof.
-  split; [vm_compute; reflexivity|]. split; [vm_compute; reflexivity|].
-  intros H. inversion H as [|t l H1 H2]; subst. apply H1. reflexivity.
+  split; split; try (vm_compute; reflexivity).
+  - unfold OrderedDisjoint, md_dup_out. cbn [app]. intros H.
+    repeat match goal with
+           | H : OrderedFrom _ (_ :: _) |- _ => inversion H; clear H; subst
+           end;
+      unfold covers_chars, tstart, tend in *; cbn in *; lia.
+  - intros H. inversion H as [|t l H1 H2]; subst. apply H1. reflexivity.
 Qed.
+
+(* FC02c (open; the residue of FC02b): "x ![[a|]] Old _a_ b" — the repeat happens inside an IMAGE, whose texts push
+   no token (only the emphasised `a` does, 15..16), so covered_until stays at 16 while the cursor reaches byte 17; the
+   repeated Text " Old " (range 9..14, BEHIND the cursor) is not skipped by the guard, is placed at the cursor with its
+   5 characters, and `&source[17..22]` of a 19-character source panics.  The stream breaks clause K3 (the range of a
+   token-bearing event must reach from the cursor on) *)
+Definition md_back_src : text := [120; 32; 33; 91; 91; 97; 124; 93; 93; 32; 79; 108; 100; 32; 95; 97; 95; 32; 98]%N.
+Definition md_back_evs : list mevent :=
+  [mev_ (MStart TParagraph) 0 19; mev_ (MText 2) 0 2; mev_ (MStart TOtherTag) 2 8; mev_ (MText 1) 7 8; mev_ (MText 1) 8 9;
+   mev_ (MText 5) 9 14; mev_ (MStart TEmphasis) 14 17; mev_ (MText 1) 15 16; mev_ MEndOther 14 17; mev_ (MText 2) 17 19;
+   mev_ MEndOther 2 8; mev_ (MText 5) 9 14; mev_ (MStart TEmphasis) 14 17; mev_ (MText 1) 15 16; mev_ MEndOther 14 17;
+   mev_ (MText 2) 17 19; mev_ MEndBreaking 0 19].
+Theorem markdown_backward_event_witness :
+  md_contractb false (encode md_back_src) 0 0 None [] md_back_evs = false /\
+  markdown_parse ascii_uni false md_back_src md_back_evs = Panic PIndex.
+Proof. split; vm_compute; reflexivity. Qed.
 
 (* ---------- the tables the translator reads from markdown.rs (Tables_lexer.v: md_break_arms, md_breaking_ends,
    md_prose_tags) against the model ---------- *)
@@ -340,7 +419,7 @@ Proof. destruct ilt; vm_compute; reflexivity. Qed.
 (* SoftBreak / HardBreak / Start(List): span length and Newline count as the code writes them *)
 Theorem md_break_table u ilt src bs stack tc rs re :
   map (fun e => match mk_step u ilt src bs stack tc (mkmev e rs re) with
-                | Ok ([t], _) => Some (Lexer.tspan t, tkind_of t)
+                | Ok [t] => Some (Lexer.tspan t, tkind_of t)
                 | _ => None
                 end) [MSoftBreak; MHardBreak; MStart TList]
   = map (fun '(_, len, n) => Some (span_new_with_len tc len, KNewline n)) md_break_arms.
@@ -352,4 +431,4 @@ Theorem md_breaking_ends_pinned :
 Proof. reflexivity. Qed.
 
 Print Assumptions markdown_glue.
-Print Assumptions markdown_duplicate_text_witness.
+Print Assumptions markdown_backward_event_witness.
